@@ -112,6 +112,30 @@ def big_images(tier):
         yield ((I_ % 2 == 0) & (J_ % 2 == 0)).astype(np.float32)
 
 
+def growth_images():
+    """frames of isolated pixels arranged so that the provisional label which makes the labelling's bookkeeping table grow (the
+    16382nd; with 32 blobs per row the 32766th falls in the same column 512 rows later) is born in a chosen place: the first column
+    of a row, the last column, the first row, an interior column"""
+    def build(W, k):
+        cols = np.arange(0, W, 2)
+        nper = len(cols)
+        q, r = divmod(16381 - k, nper)
+        rows = ([cols[:r]] if r else []) + [cols] * (q + 1 + 513)
+        im = np.zeros((2 * len(rows), W), np.float32)
+        for n_, c in enumerate(rows):
+            im[2 * n_, c] = 1.0
+        return im
+    yield build(64, 0)      # born in column 0
+    yield build(65, 32)     # born in the last column (64)
+    yield build(64, 17)     # interior
+    im = np.zeros((2, 40000), np.float32)
+    im[0, ::2] = 1.0
+    yield im                # born in the first row
+    im = np.zeros((40000, 2), np.float32)
+    im[::2, 0] = 1.0
+    yield im                # every blob born in column 0
+
+
 def sparse_patterns(with_empty=False):
     """(shape, rows, cols) for all subsets of a 3x3 grid, plus edge coordinates"""
     if with_empty:
@@ -145,7 +169,7 @@ def specs(tier):
     NP3, NP2 = NP_["NPROPERTY"], NP_["NPROPERTY2D"]
 
     def g_connectedpixels():
-        for im in itertools.chain(small_images(), big_images(tier)):
+        for im in itertools.chain(small_images(), big_images(tier), growth_images()):
             for c8 in (1, 0):
                 yield Call("connectedpixels", [A(im), A(np.zeros(im.shape, np.int32), "out"), F(0.5), I(0), I(c8), I(im.shape[0]), I(im.shape[1])])
     yield "connectedpixels", g_connectedpixels
@@ -343,6 +367,13 @@ def specs(tier):
             for nh in (1, 2, 16):
                 vals = np.concatenate([img, np.array([-5.0, 0.0, 12.0, 12.000001, 99.0], np.float32)])     # below, on, inside, on, above the range
                 yield Call("array_histogram", [A(vals), I(len(vals)), F(0.0), F(12.0), A(np.zeros(nh, np.int32), "io"), I(nh)], ret="v")
+            # pixels one float below the upper limit (and one above the lower): in range, but the scaled value may round up to nhist
+            for lo_, hi_, nh in ((0.0, 7.0, 10), (0.0, 255.0, 16), (10.0, 100.0, 50), (-1.0, 1.0, 10), (0.0, 1.0, 3), (-0.3, 0.7, 7), (5.0, 65535.0, 1000)):
+                e = np.array([np.nextafter(np.float32(hi_), np.float32(-np.inf)), np.nextafter(np.float32(lo_), np.float32(np.inf)), lo_, hi_,
+                              np.nextafter(np.float32(lo_), np.float32(-np.inf)), np.nextafter(np.float32(hi_), np.float32(np.inf))], np.float32)
+                mids = (lo_ + (hi_ - lo_) * (np.arange(1, nh) / nh)).astype(np.float32)      # the interior bin edges, and their float neighbours
+                vals = np.concatenate([e, mids, np.nextafter(mids, np.float32(-np.inf)), np.nextafter(mids, np.float32(np.inf))]).astype(np.float32)
+                yield Call("array_histogram", [A(vals), I(len(vals)), F(lo_), F(hi_), A(np.zeros(nh, np.int32), "io"), I(nh)], ret="v")
             adr = ((np.arange(npx) * 7) % npx).astype(np.uint32) if np.gcd(7, npx) == 1 else np.arange(npx, dtype=np.uint32)[::-1].copy()
             yield Call("reorder_u16_a32", [A(img.astype(np.uint16)), A(adr), A(np.zeros(npx, np.uint16), "out"), I(npx)], ret="v")
             yield Call("reorder_f32_a32", [A(img), A(adr), A(np.zeros(npx, np.float32), "out"), I(npx)], ret="v")
